@@ -5,9 +5,12 @@
    outcome, state and decision log.  That the Rust implementation is such a function (no hash seed,
    address or clock dependence, in one process and across processes, for integer and string package
    names) is a fact about the runtime; it is decided by re-execution in the harness and by the
-   requirement that the model reproduce every trace from the recorded answers alone. *)
+   requirement that the model reproduce every trace from the recorded answers alone.
+   [model_fuel_irrelevant]: the fuel of the model (an artefact: the Rust code has none) is not a behavioural
+   parameter either - two runs on the same answers that both do not run out of fuel return the same outcome,
+   state, decision log and number of consumed calls (Proofs/SolverFuel.v). *)
 From Coq Require Import List NArith Bool.
-From PG Require Import Model.VS Model.Term Model.Solver Proofs.SolverTrace.
+From PG Require Import Model.VS Model.Term Model.Solver Proofs.SolverTrace Proofs.SolverFuel.
 
 Section C07.
   Context {VS Vr : Type} (O : VSOps VS Vr) (veqb : Vr -> Vr -> bool).
@@ -19,6 +22,20 @@ Section C07.
   Proof.
     intros fuel r v tr e1 e2 H. now rewrite !(resolve_prefix O veqb fuel r v tr) by assumption.
   Qed.
+
+  Theorem model_fuel_irrelevant :
+    forall f1 f2 r v (tr : list (event (VS := VS) (Vr := Vr))) o1 st1 log1 c1 o2 st2 log2 c2,
+      resolve O veqb f1 r v tr = (o1, st1, log1, c1) -> resolve O veqb f2 r v tr = (o2, st2, log2, c2) ->
+      o1 <> OOutOfFuel -> o2 <> OOutOfFuel -> (o1, st1, log1, c1) = (o2, st2, log2, c2).
+  Proof. exact (resolve_fuel_irrelevant O veqb). Qed.
+
+  Theorem model_fuel_monotone :
+    forall f f' r v (tr : list (event (VS := VS) (Vr := Vr))) o st log cnt,
+      f <= f' -> resolve O veqb f r v tr = (o, st, log, cnt) -> o <> OOutOfFuel ->
+      resolve O veqb f' r v tr = (o, st, log, cnt).
+  Proof. exact (resolve_fuel_mono O veqb). Qed.
 End C07.
 
 Print Assumptions model_trace_function.
+Print Assumptions model_fuel_irrelevant.
+Print Assumptions model_fuel_monotone.
